@@ -10,6 +10,7 @@ import (
 
 	"github.com/AdguardTeam/AdGuardDNS/internal/dnsmsg"
 	"github.com/AdguardTeam/golibs/logutil/slogutil"
+	"github.com/AdguardTeam/golibs/syncutil"
 	"github.com/miekg/dns"
 )
 
@@ -43,6 +44,9 @@ func (c *verifCache) Len() int { return 0 }
 func verifMW(noECS, ecs *verifCache) *Middleware {
 	return &Middleware{
 		cloner:   dnsmsg.NewCloner(dnsmsg.EmptyClonerStat{}),
+		cacheReqPool: syncutil.NewPool(func() (req *cacheRequest) {
+			return &cacheRequest{}
+		}),
 		logger:   slogutil.NewDiscardLogger(),
 		cache:    noECS,
 		ecsCache: ecs,
